@@ -224,7 +224,8 @@ func c16Oracle(schemas ast.Schemas, bs []ast.Builder) string {
 // Nil kind pointers and constraints without arguments are not IR values any front-end or pass
 // produces (C04 territory): verdict ok (the correspondence still compares model and code).
 // A dangling alias chain is a schema set like any other for "exactly the objects that are structs -
-// directly or through a chain of references - get a builder": FAIL.
+// directly or through a chain of references - get a builder": FAIL (this was /repo's behaviour until
+// eed3e31; a relapse is a violation).
 func c16PanicVerdict(schemas ast.Schemas, msg string) string {
 	nilKind := false
 	var walk func(t ast.Type)
